@@ -127,7 +127,12 @@ where
                 _ => B::from_le(&i.v),
             };
             let kind = if i.kind == "mont" && B::from_mont_le(&i.v).is_some() { "mont" } else { "new" };
-            writeln!(out, "{}", json!({"ev": "init", "kind": kind, "v": i.v, "r": int_bytes(e)})).unwrap();
+            // decoding the same bytes through the three byte-level entry points: each succeeds exactly for values below the modulus
+            let dec = |r: Option<B>| json!({"ok": r.is_some(), "r": r.map(|x| int_bytes(x)).unwrap_or_default()});
+            let vb = &i.v[..B::ELEMENT_BYTES.min(i.v.len())];
+            let decs = json!({"try_from": dec(B::try_from(vb).ok()), "random": dec(<B as winter_utils::Randomizable>::from_random_bytes(vb)),
+                              "read": dec(B::read_from_bytes(vb).ok())});
+            writeln!(out, "{}", json!({"ev": "init", "kind": kind, "v": i.v, "r": int_bytes(e), "dec": decs})).unwrap();
             regs.push(e);
         }
         for (oi, o) in s.ops.iter().enumerate() {
